@@ -106,8 +106,12 @@ def _shared_patterns(fn, rd, key, job):
         if isinstance(binder, (ast.ListComp, ast.GeneratorExp, ast.DictComp)):
             g = next((g for g in binder.generators if norm(g.target) == key), None)
             if g is not None:
-                it, filters = g.iter, list(g.ifs)
+                it, filters = g.iter, filters + list(g.ifs)
                 break
+            # the filters of an enclosing comprehension that binds something else (`… for job in jobs if up in
+            # job.usage_patterns`) guard the read as well
+            for g2 in binder.generators:
+                filters += list(g2.ifs)
     if it is None:
         return "unknown"
     # resolve a local list to its defining comprehension
@@ -231,8 +235,18 @@ def r_perup(E):
     rel2, nf0 = pm.find_function(NW, "Network.update_energy_footprint")
     res.instances += 1
     # the rule and the same-class methods it calls, each read as the function it is
-    fns_nw = [nf0] + [h for h in (pm.find_method("Network", c.func.attr)[1] for c in _calls(nf0)
-                                  if isinstance(c.func, ast.Attribute) and norm(c.func.value) == "self") if h is not None]
+    # (a helper is read where it is called, its parameters replaced by the arguments: a pattern handed over as argument is
+    # the caller's loop variable, and the caller's loop is found by walking up through the call)
+    from ..astutil import helper_view as _hview
+    fns_nw = [nf0]
+    for c in _calls(nf0):
+        if isinstance(c.func, ast.Attribute) and norm(c.func.value) == "self":
+            h = pm.find_method("Network", c.func.attr)[1]
+            if h is not None and not is_property(h):
+                try:
+                    fns_nw.append(_hview(h, c))
+                except Exception:
+                    fns_nw.append(h)
     reads, nf = [], nf0
     for f_ in fns_nw:
         rs = [n for n in ast.walk(f_) if isinstance(n, ast.Subscript) and isinstance(n.value, ast.Attribute)
@@ -1233,6 +1247,13 @@ def _flow(fn):
                     # which return executes is decided by the tests on the way to it
                     dep["<return>"] = dep.get("<return>", set()) | names(s.value) | ctl
                     continue
+                if isinstance(s, ast.FunctionDef):
+                    # a local function (a shape handed to a helper) derives from whatever it reads of the enclosing scope
+                    inner = set()
+                    for b in s.body:
+                        inner |= names(b)
+                    dep[s.name] = dep.get(s.name, set()) | inner | ctl
+                    continue
                 if isinstance(s, (ast.Assign, ast.AugAssign)):
                     src = names(s.value) | ctl
                     tg = s.targets if isinstance(s, ast.Assign) else [s.target]
@@ -1596,6 +1617,55 @@ def r_floatbuf(E):
     return res
 
 
+@rule("R-ONESIDED")
+def r_onesided(E):
+    pm = E.pm
+    res = RuleResult("R-ONESIDED", "in the hourly-series builders a position computed with a subtraction (it can be negative) "
+                                   "that is filtered against the length of the series is filtered against 0 as well: numpy "
+                                   "reads a negative position from the end, so a value that falls before the start of the "
+                                   "series lands a few hours before its end instead of being left out")
+    from ..astutil import fully_expanded
+    rel, tree = pm.raw_module_tree(TB)
+    for fn in [f for f in tree.body if isinstance(f, ast.FunctionDef)]:
+        for comp in [n for n in ast.walk(fn) if isinstance(n, (ast.ListComp, ast.GeneratorExp))]:
+            for g in comp.generators:
+                if not (isinstance(g.target, ast.Name) and g.ifs):
+                    continue
+                v = g.target.id
+                src = fully_expanded(g.iter, fn)
+                # the elements come from an arithmetic expression with a subtraction
+                elt = src.elt if isinstance(src, (ast.ListComp, ast.GeneratorExp)) else None
+                if elt is None or not any(isinstance(b, ast.BinOp) and isinstance(b.op, ast.Sub) for b in ast.walk(elt)):
+                    continue
+                uppers, lowers = [], []
+                for t in g.ifs:
+                    for c in [x for x in ast.walk(t) if isinstance(x, ast.Compare)]:
+                        terms = [c.left] + list(c.comparators)
+                        for (a, op, b) in zip(terms, c.ops, terms[1:]):
+                            an, bn = norm(a), norm(b)
+                            if an == v and isinstance(op, (ast.Lt, ast.LtE)) and bn not in ("0",):
+                                uppers.append(c)
+                            if bn == v and isinstance(op, (ast.Gt, ast.GtE)) and an not in ("0",):
+                                uppers.append(c)
+                            if (an == v and isinstance(op, (ast.Gt, ast.GtE)) and bn in ("0", "-1")) or \
+                                    (bn == v and isinstance(op, (ast.Lt, ast.LtE)) and an in ("0", "-1")):
+                                lowers.append(c)
+                if not uppers:
+                    continue
+                res.instances += 1
+                if not lowers:
+                    res.findings.append(Finding(
+                        "R-ONESIDED", f"{fn.name} :: {v} bounded above only",
+                        f"{fn.name} keeps the positions `{norm(elt)[:60]}` that are `{norm(uppers[0])[:40]}` but not those that "
+                        f"are >= 0: with a start date that is not at midnight a requested hour earlier than the start hour "
+                        f"gives a negative position on the first day, which numpy counts from the end of the series", rel,
+                        comp.lineno, fn.name))
+                elif len(res.samples) < 3:
+                    res.samples.append({"function": fn.name, "positions": norm(elt)[:60], "verdict": "bounded on both sides"})
+    res.samples.append({"embedded": "expected count on the pinned tree: 0 (no position arithmetic); checked on refactorings"})
+    return res
+
+
 @rule("R-THREAD")
 def r_thread(E):
     pm = E.pm
@@ -1644,6 +1714,21 @@ def r_thread(E):
                                 f"{name} passes `{norm(k.value)[:30]}` as {c.func.id}'s `{k.arg}`", rel, c.lineno, name))
         for c in _calls(fn):
             if norm(c.func) == "pd.date_range":
+                # only the range that becomes the time line of the series: the index of the frame built here, or what this
+                # function returns (an auxiliary calendar — the days of the span, to find positions — is not the time line)
+                par_ = getattr(c, "_parent", None)
+                tl_names = {t.id for t in par_.targets if isinstance(t, ast.Name)} if isinstance(par_, ast.Assign) else set()
+                is_index = isinstance(par_, ast.keyword) and par_.arg == "index"
+                is_index = is_index or any(isinstance(d, ast.Call) and norm(d.func) == "pd.DataFrame" and any(
+                    k.arg == "index" and isinstance(k.value, ast.Name) and k.value.id in tl_names for k in d.keywords)
+                    for d in ast.walk(fn))
+                is_index = is_index or isinstance(par_, ast.Return) or any(
+                    isinstance(r, ast.Return) and isinstance(r.value, ast.Name) and r.value.id in tl_names for r in ast.walk(fn))
+                # a loop over it that fills the values by position makes it the time line as well
+                is_index = is_index or any(isinstance(l, ast.For) and any(
+                    isinstance(x, ast.Name) and x.id in tl_names for x in ast.walk(l.iter)) for l in ast.walk(fn))
+                if not is_index:
+                    continue
                 res.instances += 1
                 kws = {k.arg: k.value for k in c.keywords}
                 fr = kws.get("freq")
